@@ -69,6 +69,7 @@ type c11Hook struct {
 	Pre  []c11Op `json:"pre,omitempty"`
 	Fail int     `json:"fail,omitempty"` // 0 ok, 1 ErrNotFound, 2 ErrAccessDenied, 3 other error
 	Full bool    `json:"full,omitempty"` // answer with the value even if the version is unchanged
+	CA   int     `json:"cancel_after,omitempty"` // k+1: caller k's context ends right AFTER this request was answered (before the next is issued)
 }
 
 // ---------------------------------------------------------------- scripted service
@@ -83,6 +84,7 @@ type c11Pending struct {
 	name string
 	old  uint32
 	ctx  context.Context // the context the request was made on
+	late bool            // the answer had arrived before the context ended: deliver it
 	rel  chan c11Answer
 }
 
@@ -167,7 +169,7 @@ func (s *c11Svc) GetIfChanged(ctx context.Context, name string, old api.SecretVe
 	// Every request is held until the driver releases it (the driver always does); a request whose
 	// context has ended by then fails with that context's error, whatever the service would say.
 	a := <-p.rel
-	if err := ctx.Err(); err != nil {
+	if err := ctx.Err(); err != nil && !p.late {
 		return nil, err
 	}
 	return a.sv, a.err
@@ -494,7 +496,29 @@ func (r *c11Run) poll(op c11Op) {
 		}
 		r.emit(true, fmt.Sprintf("Q %s %s %s", coqBytes([]byte(p.name)), coqBool(hook.Fail != 0), coqBool(hook.Full)),
 			append(r.writes(), fmt.Sprintf("oq (Some %d) %s", p.old, respT)))
+		var late *c11Caller
+		if k := hook.CA - 1; k >= 0 && k < len(callers) && !callers[k].tick && !callers[k].done && !dead {
+			// the context ends just after the answer arrived: this request still succeeds, the
+			// store finds the context ended when it comes back
+			late = callers[k]
+			p.late = true
+			late.cancel()
+		}
 		p.rel <- ans
+		if late != nil {
+			synctest.Wait()
+			var obs []string
+			select {
+			case err := <-late.ch:
+				late.done = true
+				obs = append(obs, c11Class(err))
+			default:
+			}
+			r.cancels++
+			// (cache writes are not collected here: if this was the last request the poll has
+			// completed meanwhile and its flush belongs to the end-of-poll event)
+			r.emit(true, fmt.Sprintf("C %d", hook.CA-1), obs)
+		}
 	}
 	// everything has returned (or is stuck)
 	synctest.Wait()
@@ -742,6 +766,9 @@ func c11Hooks(rng *rand.Rand, nNames int, intensity int) []c11Hook {
 		if rng.IntN(100) < 8 {
 			hs[i].Full = true
 		}
+		if rng.IntN(100) < 5 {
+			hs[i].CA = 1 + rng.IntN(2)
+		}
 	}
 	return hs
 }
@@ -851,8 +878,8 @@ func c11SystematicCancel() []c11Input {
 	for k := 1; k <= 5; k++ {
 		for p := 0; p < k; p++ {
 			for j := 0; j <= 2; j++ {
-				for variant := 0; variant < 3; variant++ {
-					if variant > 0 && (j == 0 || p%2 == 1) {
+				for variant := 0; variant < 4; variant++ {
+					if (variant == 1 || variant == 2) && (j == 0 || p%2 == 1) {
 						continue
 					}
 					in := c11Input{Kind: "scn", NDecl: k, Allow: false}
@@ -875,6 +902,8 @@ func c11SystematicCancel() []c11Input {
 						hs[p].Pre = append(hs[p].Pre, c11Op{K: "cancel", N: 1})
 					case 2: // a joiner's, then the leader's
 						hs[p].Pre = append(hs[p].Pre, c11Op{K: "cancel", N: j}, c11Op{K: "cancel", N: 0})
+					case 3: // the leader's context ends right after the answer at position p arrived
+						hs[p].CA = 1
 					}
 					in.Ops = append(in.Ops, c11Op{K: "refresh", Hooks: hs})
 					for i := 0; i < k; i++ {
